@@ -281,6 +281,13 @@ func descD(v ssa.Value, d int) string {
 		if strings.HasPrefix(n, "builtin.len") && len(x.Call.Args) == 1 {
 			return "len(" + descD(x.Call.Args[0], d+1) + ")"
 		}
+		if len(x.Call.Args) > 0 && len(x.Call.Args) <= 3 && !strings.HasPrefix(n, "dyn:") {
+			var as []string
+			for _, a := range x.Call.Args {
+				as = append(as, descD(a, d+2))
+			}
+			return "call:" + n + "(" + strings.Join(as, ",") + ")"
+		}
 		return "call:" + n
 	case *ssa.Extract:
 		return descD(x.Tuple, d+1) + "#" + fmt.Sprint(x.Index)
